@@ -48,32 +48,33 @@ func dryRun(env *core.Env, _ []string) int {
 	if s := env.Opt("cont", ""); s != "" {
 		cont = parseOrder(s)
 	}
-	r, err := l.run(order, env.OptInt("crashat", -1), cont)
+	segs := []segment{{Order: order, CrashAt: env.OptInt("crashat", -1)}, {Order: cont, CrashAt: env.OptInt("crashat2", -1)}}
+	if segs[1].CrashAt >= 0 {
+		segs = append(segs, segment{Order: cont, CrashAt: -1})
+	}
+	rs, err := l.run(segs)
 	if err != nil {
 		fmt.Fprintln(os.Stderr, "run:", err)
 		return 2
 	}
-	for _, e := range r.Log1 {
-		fmt.Println("1", core.J(e))
-	}
-	fmt.Println("crashed", r.Crashed, "next", core.J(r.Next), "died", r.Died)
-	for _, e := range r.Log2 {
-		fmt.Println("2", core.J(e))
-	}
-	if r.Inspect != nil {
-		if env.Opt("raw", "") != "" {
-			b, _ := json.MarshalIndent(r.Inspect, "", " ")
-			fmt.Println(string(b))
+	for i, r := range rs {
+		for _, e := range r.Log {
+			fmt.Println(i, core.J(e))
 		}
-		fmt.Println("openErr", r.Inspect.OpenErr)
-		if r.Inspect.Obs1 != nil {
-			v := evaluate(w, r.Inspect.Obs1)
-			fmt.Println("after restart:", core.J(v))
-		}
-		fmt.Println("deliveries", core.J(r.Inspect.Deliveries))
-		if r.Inspect.Obs2 != nil {
-			v := evaluate(w, r.Inspect.Obs2)
-			fmt.Println("final:", core.J(v))
+		fmt.Println(i, "crashed", r.Crashed, "next", core.J(r.Next), "died", r.Died)
+		if r.Out != nil {
+			if env.Opt("raw", "") != "" {
+				b, _ := json.MarshalIndent(r.Out, "", " ")
+				fmt.Println(string(b))
+			}
+			fmt.Println(i, "openErr", r.Out.OpenErr)
+			if r.Out.Obs1 != nil {
+				fmt.Println(i, "at start:", core.J(evaluate(w, r.Out.Obs1)))
+			}
+			fmt.Println(i, "deliveries", core.J(r.Out.Deliveries))
+			if r.Out.Obs2 != nil {
+				fmt.Println(i, "at end:", core.J(evaluate(w, r.Out.Obs2)))
+			}
 		}
 	}
 	return 0
